@@ -7,6 +7,7 @@ import (
 	"os"
 
 	"verif/harness/internal/arith"
+	"verif/harness/internal/chain"
 	"verif/harness/internal/common"
 	"verif/harness/internal/kv"
 )
@@ -15,6 +16,8 @@ func family(name string, profile string) common.Family {
 	switch name {
 	case "arith":
 		return arith.Fam{}
+	case "chain":
+		return chain.New(profile)
 	case "kv":
 		return kv.New(profile)
 	}
